@@ -33,7 +33,7 @@ for d in sorted(glob.glob(os.path.join(H, "seeded", "*", "meta.json"))):
     m = json.load(open(d))
     sid = os.path.basename(os.path.dirname(d))
     what = (str(m.get("what_breaks", "")) + " — needs: " + str(m.get("needs_to_manifest", "")))
-    out.append("| %s | %s | %s |" % (sid, what.replace("|", "/").replace("\n", " ")[:520], str(m.get("detected_by", "not yet run")).replace("|", "/")[:420]))
+    out.append("| %s | %s | %s |" % (sid, what.replace("|", "/").replace("\n", " ")[:520], (str(m.get("detected_by", "not yet run")) + (" — FINAL: " + m["final_run"] if m.get("final_run") else "")).replace("|", "/")[:640]))
 text = "\n".join(out) + "\n"
 p = os.path.join(H, "DESIGN.md")
 s = open(p).read()
